@@ -508,3 +508,59 @@ func genForge(r *rand.Rand, id string, size int, total int) []string {
 	g.add("final10")
 	return g.lines
 }
+
+var garbageKinds = []string{"random", "empty", "nullheads", "emptyobj", "nullmix", "illtyped", "truncated", "flip", "flip", "dropfield", "dropfield", "dropfield", "wrongaddr", "deep"}
+var dropFields = []string{"identity", "clock", "hash", "next", "refs", "key", "sig", "payload", "id", "v", "null:identity", "null:clock", "null:hash",
+	"identity.id", "identity.publicKey", "identity.signatures", "identity.type", "clock.id", "clock.time", "identity+clock", "identity+hash", "clock+hash", "next+refs", "identity+clock+hash"}
+
+// genGarbage: malformed messages on the topic and the direct channel, interleaved with writes and
+// valid messages; state is observed before and after every malformed message.
+func genGarbage(r *rand.Rand, id string, size int, total int) []string {
+	g := &Gen{r: r}
+	peers := g.r.Perm(total)[:2+g.pick(total-1)]
+	kind := []string{"kv", "log", "doc"}[g.pick(3)]
+	g.add("scn %s kind=%s acl=%s peers=%s", id, kind, joinInts(peers), joinInts(peers))
+	write := func(p int) {
+		switch kind {
+		case "kv":
+			g.add("put %d %s %s", p, hx([]byte("k")), hx(g.value()))
+		case "log":
+			g.add("add %d %s", p, hx(g.value()))
+		default:
+			g.add("docput %d %s %s", p, hx([]byte("d1")), hx([]byte(fmt.Sprintf("v%d", g.pick(50)))))
+		}
+	}
+	write(peers[0])
+	steps := 3 + g.pick(size)
+	for i := 0; i < steps; i++ {
+		src := peers[g.pick(len(peers))]
+		q := peers[g.pick(len(peers))]
+		c := g.pick(100)
+		switch {
+		case c < 25:
+			write(src)
+		case c < 35 && src != q:
+			g.add("garbage %d route=%s kind=valid src=%d from=%d", q, []string{"pub", "dc"}[g.pick(2)], src, src)
+		default:
+			k := garbageKinds[g.pick(len(garbageKinds))]
+			extra := ""
+			if k == "dropfield" {
+				extra = " fields=" + dropFields[g.pick(len(dropFields))]
+			}
+			g.add("obs %d", q)
+			g.add("garbage %d route=%s kind=%s seed=%d src=%d from=%d%s", q, []string{"pub", "dc"}[g.pick(2)], k, g.pick(100000), src, src, extra)
+			g.add("unchanged %d", q)
+		}
+	}
+	// later valid traffic must still be handled
+	for _, p := range peers {
+		for _, q := range peers {
+			if p != q {
+				g.add("garbage %d route=%s kind=valid src=%d from=%d", q, []string{"pub", "dc"}[g.pick(2)], p, p)
+			}
+		}
+	}
+	g.finalSync(peers)
+	g.add("final12")
+	return g.lines
+}
